@@ -395,6 +395,9 @@ func runShard(prop, repo, tier string, si, sn int) *Partial {
 	var all []*Oblig
 	var bounded []string
 	idx := 0
+	if tier == "thorough" {
+		coverCalls = true
+	}
 	for _, fc := range db.Order {
 		if !hasProp(fc.Props, prop) || fc.Trusted || (fc.ThoroughOnly && tier != "thorough") {
 			continue
@@ -415,7 +418,7 @@ func runShard(prop, repo, tier string, si, sn int) *Partial {
 			if o.Props != nil && !hasProp(o.Props, prop) {
 				continue
 			}
-			if o.Class != "cover" && !classAllowed(prop, o.Class) {
+			if o.Class != "cover" && o.Class != "covercall" && !classAllowed(prop, o.Class) {
 				continue
 			}
 			all = append(all, o)
@@ -469,11 +472,19 @@ func runShard(prop, repo, tier string, si, sn int) *Partial {
 			}
 			sls = append(sls, sl{g.Name, o.Seconds})
 		}
-		if g.Class == "cover" {
+		if g.Class == "covercall" {
+			// one satisfiable path behind the call site is enough
+			for _, o := range g.Instances {
+				if o.Status == "proved" {
+					g.Status, g.Backend = "proved", o.Backend
+				}
+			}
+		}
+		if g.Class == "cover" || g.Class == "covercall" {
 			if g.Status == "proved" {
 				P.Covers++
 			} else {
-				P.Stdout = append(P.Stdout, fmt.Sprintf("VACUOUS: %s (%s): preconditions unsatisfiable or undecided", g.Name, g.Status))
+				P.Stdout = append(P.Stdout, fmt.Sprintf("VACUOUS: %s (%s): preconditions (or, for covercall, the state behind the call on every path) unsatisfiable or undecided", g.Name, g.Status))
 				P.Violations++
 				P.Lines = append(P.Lines, reportViolation(L, prop, g, repo))
 			}
@@ -904,7 +915,50 @@ func cmdVerify(args []string) int {
 				fmt.Printf("   slow %.1fs (%d instances) %s\n", g.Seconds, len(g.Instances), strings.TrimPrefix(g.Name, r.Key+"/"))
 			}
 		}
+		if coverCalls || coverBlocks {
+			// a call site is covered when at least one path behind it is satisfiable
+			live := map[string]bool{}
+			for _, g := range groups {
+				if g.Class != "covercall" {
+					continue
+				}
+				anySat := false
+				for _, o := range g.Instances {
+					if o.Status == "proved" {
+						anySat = true
+					}
+				}
+				if anySat {
+					g.Status = "proved"
+					live[strings.TrimPrefix(g.Name, r.Key+"/")] = true
+				} else if !strings.Contains(g.Name, "/coverblock:") {
+					fmt.Printf("   DEAD-AFTER-CALL %s (%d paths)\n", strings.TrimPrefix(g.Name, r.Key+"/"), len(g.Instances))
+				}
+			}
+			{
+				for _, b := range fn.Blocks {
+					if live[fmt.Sprintf("coverblock:%d", b.Index)] || len(fn.Blocks) == 0 {
+						continue
+					}
+					desc := ""
+					for _, in := range b.Instrs {
+						if in.Pos().IsValid() {
+							p := L.Fset.Position(in.Pos())
+							desc = fmt.Sprintf("%s:%d %s", shortFile(p.Filename), p.Line, in.String())
+							break
+						}
+					}
+					if desc == "" && len(b.Instrs) > 0 {
+						desc = b.Instrs[len(b.Instrs)-1].String()
+					}
+					fmt.Printf("   DEAD-BLOCK %d %s [%s]\n", b.Index, b.Comment, desc)
+				}
+			}
+		}
 		for _, g := range groups {
+			if g.Class == "covercall" {
+				continue
+			}
 			if g.Status != "proved" || *showAll {
 				fmt.Printf("   %-9s %-10s %s  [%s] %s\n", g.Status, g.Backend, strings.TrimPrefix(g.Name, r.Key+"/"), g.Clause, g.Pos)
 				if g.Status != "proved" {
